@@ -282,3 +282,51 @@ def event(P, spred, mode, dynamic=None):
             return G is not None and P.key(G) in fset
         return False
     return p
+
+
+_RET_RANGE = {}
+
+
+def ret_range(P, key, depth=0):
+    """context-free range of the value a function returns (join over its returns), with the callees' ranges plugged in
+    (depth-limited); None when unknown.  Used as a post_call summary where no K4 driver run is at hand"""
+    ck = (id(P), key)
+    if ck in _RET_RANGE:
+        return _RET_RANGE[ck]
+    _RET_RANGE[ck] = None
+    G = P.fn.get(key)
+    if G is None or G.entry is None or depth > 3 or G.d.get('ret_t', '').strip() in ('void', ''):
+        return None
+    hk = Hooks()
+    hk.post_call = make_post_call(P, depth + 1)
+    A = absint.Analyzer(P, G, hooks=hk)
+    try:
+        A.run()
+    except Exception:
+        return None
+    out = None
+    for (e, env, v) in A.ret_states:
+        if v is None:
+            return None
+        out = v if out is None else absint.join(out, v)
+    if out is not None:
+        out = V(out.lo, out.hi, ne=out.ne)
+    _RET_RANGE[ck] = out
+    return out
+
+
+def make_post_call(P, depth=0):
+    def post_call(A, env, e, r):
+        tg = P.call_targets(A.F, e)
+        if not tg or any(t.startswith(('ext:', 'cb:', 'unk:')) for t in tg):
+            return None
+        out = None
+        for t in tg:
+            rr = ret_range(P, t, depth)
+            if rr is None:
+                return None
+            out = rr if out is None else absint.join(out, rr)
+        if out is None:
+            return None
+        return r.copy(lo=max(r.lo, out.lo), hi=min(r.hi, out.hi), ne=frozenset(r.ne) | frozenset(out.ne)) if isinstance(r, V) else out
+    return post_call
